@@ -1,15 +1,15 @@
 from contracts.h5graph import CONTRACTS as _H
 from contracts.repaired import ComponentsReadOnly
 from contracts.getters import GettersDoNotWrite
-from contracts.tree import ALL_OF as _ALLOF, AddSaveConcatenated, OpenResetsRegistries, ParentSet
+from contracts.tree import ALL_OF as _ALLOF, AddSaveConcatenated, OpenResetsRegistries, ParentSet, TypeInStoredRecords, SweepDeadEntries
 from contracts.writer import FetchHandleStub, WriteAttributes
 from contracts.workspace_io import CloseContract
 from contracts.histories import ApiHistories
-from contracts.concat import ConcatHistories as _CH
+from contracts.concat import ConcatHistories as _CH, DeleteIndexData as _DID, FetchStartIndex as _FSI
 from contracts.copy_wf import CopiesKeepFilesValid as _CKV
 from contracts.copying import CopyNative as _CN
 from contracts.surveys import EMMetadataSet as _EMS, TransmittersSet as _TS, ReceiversSet as _RS, IndependentSurveysFrame as _ISF
-CONTRACTS = list(_H) + [AddSaveConcatenated, OpenResetsRegistries, ParentSet, FetchHandleStub, WriteAttributes, CloseContract, ApiHistories] + list(_ALLOF) + [_CH] + [_EMS, _TS, _RS, _ISF, _CKV, _CN] + [GettersDoNotWrite] + [ComponentsReadOnly]
+CONTRACTS = list(_H) + [AddSaveConcatenated, OpenResetsRegistries, ParentSet, FetchHandleStub, WriteAttributes, CloseContract, ApiHistories] + list(_ALLOF) + [_CH] + [_EMS, _TS, _RS, _ISF, _CKV, _CN] + [GettersDoNotWrite] + [ComponentsReadOnly] + [_DID, _FSI, SweepDeadEntries, TypeInStoredRecords]
 
 MANIFEST = {
     "category": "proof",
